@@ -260,6 +260,7 @@ static void runSweep32(const Opt &o, Ev &ev) {
     if (complete) {
         uint64_t lo = (1ULL << 32) * o.worker / o.workers, hi = (1ULL << 32) * (o.worker + 1) / o.workers;
         for (uint64_t v = lo; v < hi && go; v++) {
+            if ((v & 0xfff) == 0) vfTick();                 // progress for the hang watchdog
             go = one((uint32_t) v, 10, 1) && one((uint32_t) v, 10, 0);
             if ((v & 15) == 0 && go) go = one((uint32_t) (v * 2654435761u), 2, 0) && one((uint32_t) (v * 2654435761u), 8, 0) && one((uint32_t) (v * 2654435761u), 16, 0);
         }
@@ -267,7 +268,7 @@ static void runSweep32(const Opt &o, Ev &ev) {
     } else {
         uint64_t idx = 0;
         auto take = [&](uint32_t v) { if ((idx++ % o.workers) != (uint64_t) o.worker) return true; return one(v, 10, 1) && one(v, 10, 0) && one(v, 2, 0) && one(v, 8, 0) && one(v, 16, 0); };
-        for (uint64_t v = 0; v < (1ULL << 32) && go; v += (o.quick() ? 4093 : 251)) go = take((uint32_t) v);
+        for (uint64_t v = 0; v < (1ULL << 32) && go; v += (o.quick() ? 4093 : 251)) { vfTick(); go = take((uint32_t) v); }
         for (int s = 0; s < 32 && go; s++) for (uint32_t m = 0; m < 1024 && go; m++) go = take(m << s) && take(~(m << s));
         uint64_t p10 = 1;
         for (int e = 0; e < 10 && go; e++, p10 *= 10) for (int d = -16; d <= 16 && go; d++) go = take((uint32_t) (p10 + d)) && take((uint32_t) (0 - (p10 + d)));
